@@ -22,7 +22,8 @@
    the guards: a `del` line is accepted only in the state that follows the destination's acknowledgement of
    that copy, a `set` line only after the source accepted, a `recv` line only after a good source read.
    The liveness half is checked at the bounded horizon: every acknowledged blob must be observed `delivered`.
-   Segments are independent; dead chain / high-water protocol with round-robin registers as in Trace_Lin. *)
+   Segments are independent; dead chain / high-water protocol with round-robin registers as in Trace_Lin.
+   Instances: MC_TraceSync (Blobs = 1..40) and MC_TraceSyncBurst (1..120, burst family). *)
 EXTENDS Sync, Sequences, TLC, Json, IOUtils
 
 VARIABLES l, dead, segno
@@ -42,13 +43,23 @@ TInit == /\ l = 1 /\ dead = TRUE /\ segno = 0
 ASSUME \A i \in 10..17 : TLCSet(i, 0)
 Mark == IF l > TLCGet(10 + segno) THEN TLCSet(10 + segno, l) /\ PrintT(<<"HW", l>>) ELSE TRUE
 IsEv(e) == l <= Len(Trace) /\ Ev.ev = e /\ l' = l + 1
-(* MemDelete(b) commutes with every step that does not involve b, and the only step whose outcome depends on it
-   is the duplicate check of a later upload of b (EnqueueMem).  So a pending MemDelete(b) needs to be carried
-   across a line only if an upload of b completes later; otherwise it is taken at once.  This keeps the search
-   linear instead of doubling the branches at every delivery. *)
-AckAhead(b) == \E j \in l..(IF l + 200 < Len(Trace) THEN l + 200 ELSE Len(Trace)) :
-                  Trace[j].ev = "ack" /\ Trace[j].b = b /\ Trace[j].sg = Ev.sg
-NoLinger == \A b \in Blobs : cst[b] = "deleted" => AckAhead(b)
+(* Placement of the silent steps (a partial-order reduction: only the search is pruned, every line is still
+   matched against Sync's actions).  Both silent steps of b read and write only b's components (ust[b], cst[b],
+   b's membership of needCopy and acked), so they commute with every line and every silent step of another blob,
+   except Crash (which resets the memory).
+   - MemDelete(b): the only step whose outcome depends on it is the duplicate check of an upload hook of b
+     (EnqueueMem(b)).  So a pending MemDelete(b) is carried across a line only while such a hook can still run
+     before it: the source has stored b and the hook has not run (ust[b] = "stored"), or a source receive of b
+     lies ahead in the same run; otherwise it is taken at once.
+   - EnqueueMem(b) is taken as late as possible: right before a line of b (its `set`, a `fetch` that overtook the
+     row, the `ack`, ...), or before a `crash` line if it is the duplicate case (the only effect that survives
+     the crash is the acknowledgement; a first-time EnqueueMem(b) followed by a crash without a line of b in
+     between leaves no trace and is dropped).
+   This keeps the search linear instead of doubling the branches at every delivery and at every upload in
+   flight (burst family: 100 concurrent uploads). *)
+UpAhead(b) == \E j \in l..(IF l + 200 < Len(Trace) THEN l + 200 ELSE Len(Trace)) :
+                  Trace[j].ev = "up" /\ Trace[j].b = b /\ Trace[j].sg = Ev.sg
+NoLinger == \A b \in Blobs : cst[b] = "deleted" => (ust[b] = "stored" \/ UpAhead(b))
 Live == ~dead /\ NoLinger /\ UNCHANGED <<dead, segno>>
 \* Mark must be the LAST conjunct of an action (TLC evaluates conjuncts in order).
 
@@ -81,8 +92,9 @@ TFinal == /\ IsEv("final") /\ Live /\ Ev.b \in Blobs
           /\ UNCHANGED vars /\ Mark
 
 \* silent steps
-TSilent == /\ ~dead
-           /\ \E b \in Blobs : EnqueueMem(b) \/ MemDelete(b)
+TSilent == /\ ~dead /\ l <= Len(Trace)
+           /\ \E b \in Blobs : \/ MemDelete(b)
+                               \/ (Ev.b = b \/ (Ev.ev = "crash" /\ b \in needCopy)) /\ EnqueueMem(b)
            /\ UNCHANGED <<l, dead, segno>>
 
 TGiveUp == ~dead /\ l <= Len(Trace) /\ Ev.ev # "reset" /\ l' = l + 1 /\ dead' = TRUE /\ Fresh /\ UNCHANGED segno
